@@ -13,7 +13,12 @@ from .. import translate as T
 
 PID = "C08"
 TITLE = "Discrete differential operators satisfy their defining identities"
-LEAN_MODULES = ["Mouette.Props.C08"]
+# bridges Generated.C08Src.f ~ Model.Ops.f (Props/C08Source.lean) per function translated from its BODY on every run
+BRIDGES = {
+    "mouette/operators/mass.py::area_weight_matrix": ["mass_inner", "mass_outer", "area_weight_matrix_bridge", "mass_tail_order"],
+    "mouette/operators/mass.py::volume_weight_matrix": ["volume_weight_matrix_bridge"],
+}
+LEAN_MODULES = ["Mouette.Props.C08", "Mouette.Props.C08Source"]
 REQUIRED_THEOREMS = [
     "toFun_append", "edgeBlock_eq_stiffEntry", "lap_eq_stiffness", "lap_symmetric", "lap_row_sums_zero", "lap_quad",
     "blocks_symmetric", "blocks_row_sums_zero", "gramRow_nabla_eq_edgeBlock", "dualLap_symmetric", "dualLap_row_sums_zero",
@@ -21,12 +26,13 @@ REQUIRED_THEOREMS = [
     "adjacency_entries", "vertexToEdge_column", "vertexToFace_entries", "mass_diagonal", "mass_nonneg", "mass_total",
     "mass_pos", "mass_total_triangles", "mass_total_tets", "diagMass_total", "massEdges_total", "edgeFaceIncidence_of_manifold", "massEdges_total_of_manifold", "directFace_eq_iff", "edgeFaceList_in_range", "massEdges_total_le_partial", "massEdges_diagonal", "rowSum_eq_sum_toFun",
     "hatGrad_partition", "grad_affine", "grad_dot_eq_cot", "grad_coords", "oppLocal_is_corner", "oppLocal_bridge", "lapLoop_bridge", "lapWrites_perm", "lapWrites_bridge",
-]
+] + sorted({t for ts in BRIDGES.values() for t in ts})
 TRUSTED = [
     "Lean 4.33.0 kernel; axioms ⊆ {propext, Classical.choice, Quot.sound}",
     "hand-written model Mouette/Model/Operators.lean tied to mouette/operators/*.py by the dense matrix correspondence of this run "
     "(structure exact, values at 1e-9*scale+1e-12)",
     "scipy.sparse semantics: csc_matrix((vals,(rows,cols))) sums duplicates; lil assignment; @ is the matrix product; diags",
+    "translator vlib/gen/c07_translate.py (python ast) for the assembly loops of mass.py listed as `translated` in SOURCE_MAP",
     "floating-point rounding, sqrt, atan2 are not modelled; cotangents/areas/lengths are evaluated by the harness from the model's exact "
     "(cross², dot) pairs / squared areas / squared lengths",
     "edge numbering (mesh.edges) is taken from the implementation; mesh connectivity queries are modelled by direct inspection of the face list",
@@ -287,11 +293,87 @@ def _history(case):
     return out
 
 
+# =================================================================================================
+# scale family: the same mesh at scales 1e-7 .. 1e6.  Every operator is homogeneous in the coordinates (masses ~ s^2, s^3; cotangent /
+# uniform / dual / edge Laplacians ~ s^0; gradient ~ 1/s; length-weighted adjacency and the volume Laplacian ~ s), and the options
+# inverse / sqrt change the degree to -d, d/2, -d/2.  Compared with a tolerance RELATIVE to the largest entry of the matrix.
+# =================================================================================================
+SCALES = [1e-7, 1e-4, 1e3, 1e6]
+SDEG = {"glap": 0, "adj_one": 0, "adj_len": 1, "adj_dict": 0, "v2e": 0, "v2e_or": 0, "v2f": 0, "ltet": 0, "vlap": 1,
+        "lap_cot": 0, "lap_uni": 0, "ced": 0, "ced_inv": 0, "ltri_cot": 0, "ltri_uni": 0, "ledg_cot": 0, "ledg_uni": 0, "grad_c": -1, "grad_r": -1,
+        "amf_0": 2, "amf_1": -2, "ame_0": 2, "ame_1": -2}
+for _i in (0, 1):
+    for _q in (0, 1):
+        SDEG[f"am_{_i}{_q}"] = 2 * (-1 if _i else 1) * (0.5 if _q else 1)
+        SDEG[f"vm_{_i}{_q}"] = SDEG[f"vmc_{_i}{_q}"] = 3 * (-1 if _i else 1) * (0.5 if _q else 1)
+for _f in FORMATS:
+    SDEG[f"am_fmt_{_f}"] = SDEG[f"amf_fmt_{_f}"] = 2; SDEG[f"vm_fmt_{_f}"] = SDEG[f"vmc_fmt_{_f}"] = 3
+SCALE_RTOL = 1e-7
+SCALE_COND = {"lap_cot": 400.0, "ced": 400.0, "ced_inv": 4e5, "ltri_cot": 4e5, "ledg_cot": 400.0, "grad_c": 400.0, "grad_r": 400.0, "vlap": 1e3}
+# (direct, inverse) and (direct, sqrt) pairs of one family: inverse * direct = Id, sqrt^2 = direct
+MASS_PAIRS = [("am_00", "am_10", "inv"), ("am_01", "am_11", "inv"), ("am_00", "am_01", "sqrt"), ("am_10", "am_11", "sqrt"),
+              ("amf_0", "amf_1", "inv"), ("ame_0", "ame_1", "inv"),
+              ("vm_00", "vm_10", "inv"), ("vm_01", "vm_11", "inv"), ("vm_00", "vm_01", "sqrt"), ("vm_10", "vm_11", "sqrt"),
+              ("vmc_00", "vmc_10", "inv"), ("vmc_01", "vmc_11", "inv"), ("vmc_00", "vmc_01", "sqrt"), ("vmc_10", "vmc_11", "sqrt")]
+
+
+def _mass_identities(o, where):
+    """inverse o direct = Id and (sqrt)^2 = direct, entrywise on the diagonals, relative tolerance"""
+    out = []
+    for a, b, kind in MASS_PAIRS:
+        if a not in o or b not in o or isinstance(o[a], str) or isinstance(o[b], str): continue
+        da, db = np.real(np.diag(dense(o[a]))), np.real(np.diag(dense(o[b])))
+        if da.shape != db.shape or da.size == 0 or not np.all(da > 0): continue      # shape / positivity are reported by the main clauses
+        if kind == "inv":
+            bad = ~(np.abs(da * db - 1.0) <= 1e-9)
+            what = f"{b} is not the inverse of {a}"
+        else:
+            bad = ~(np.abs(db * db - da) <= 1e-9 * np.abs(da))
+            what = f"{b} squared is not {a}"
+        if np.any(bad):
+            i = int(np.argmax(bad))
+            out.append(_finding(f"C08/mass-identity/{kind}/{b}", what + " (diagonal entry by entry, relative tolerance 1e-9)",
+                                f"{where}: entry {i}: {a}={da[i]!r}, {b}={db[i]!r}"))
+    return out
+
+
+def _scale_family(case):
+    out = []
+    base = _obs(case)
+    out += _mass_identities(base, "scale 1")
+    for sc in SCALES:
+        Vs = [[float(c) * sc for c in p] for p in case["V"]]
+        o2 = observe(case["t"], Vs, case["X"], case["extra"], rep=case.get("rep", "vec"))
+        out += _mass_identities(o2, f"scale {sc:g}")
+        for k, deg in SDEG.items():
+            if k not in base or k not in o2: continue
+            b, g = base[k], o2[k]
+            if isinstance(b, str) or isinstance(g, str):
+                if isinstance(g, str) and not isinstance(b, str):
+                    out.append(_finding(f"C08/scale/{k}/raises", f"{k} raises on the mesh scaled by a power of ten although it is built at scale 1", f"scale {sc:g}: {g}"))
+                continue
+            B, Gm = dense(b) * (sc ** deg), dense(g)
+            if B.shape != Gm.shape:
+                out.append(_finding(f"C08/scale/{k}", f"{k}: shape changes with the scale of the mesh", f"scale {sc:g}")); continue
+            if B.size == 0: continue
+            mag = float(np.max(np.abs(B)))
+            if mag == 0.0 or not np.isfinite(mag): continue
+            d = np.abs(Gm - B)
+            d = np.where(np.isfinite(d), d, np.inf)
+            rel = float(np.max(d)) / mag
+            if not (rel <= SCALE_RTOL * SCALE_COND.get(k, 10.0)):
+                ij = np.unravel_index(int(np.argmax(d)), d.shape)
+                out.append(_finding(f"C08/scale/{k}", f"{k} of the mesh scaled by s is not s^{deg:g} times {k} of the mesh (relative to the largest entry)",
+                                    f"scale {sc:g}: entry {ij}: {Gm[ij]!r} vs {B[ij]!r} (relative error {rel:.3g})"))
+    return out
+
+
 def oracle(case):
     out = []
     kind, V, X = case["t"], case["V"], case["X"]
     _set_tol(case)
     obs = _obs(case)
+    if case.get("scales"): out += _scale_family(case)
     if obs.get("_alias"): out.append(_finding("C08/alias/vertex-coordinates-modified", "building the operators modified the vertex coordinates", ""))
     if case.get("hist"): out += _history(case)
     # ---- option `format` of the mass matrices: same matrix in every sparse format
@@ -732,6 +814,8 @@ def _decorate(rng, case):
               "s": rng.choice([0.5, 2.0, 4.0]), "q": list(rng.choice(U.QUATS[1:])), "i": rng.randrange(1 << 16),
               "d": [rng.choice([-1, 1]) * sz / 64, rng.choice([-1, 1]) * sz / 128, sz / 64]}
         case["hist"] = {"move": mv}
+    if case["rep"] in ("vec", "list", "tuple", "ndarray") and rng.random() < 0.3:
+        case["scales"] = True
     return case
 
 
@@ -775,11 +859,13 @@ def classify(case, obs):
     ks += [f"op:{k}" for k, v in obs.items() if isinstance(v, dict)]
     ks.append("rep:" + case.get("rep", "vec"))
     if case.get("hist"): ks += ["hist:second-build", "hist:move-" + case["hist"]["move"]["kind"]]
+    if case.get("scales"): ks.append("scales:1e-7..1e6")
     return ks
 
 
 def describe(case):
-    return {"t": case["t"], "tag": case.get("tag"), "nV": len(case["V"]), "nX": len(case["X"]), "rep": case.get("rep"), "hist": case.get("hist")}
+    return {"t": case["t"], "tag": case.get("tag"), "nV": len(case["V"]), "nX": len(case["X"]), "rep": case.get("rep"), "hist": case.get("hist"),
+            "scales": case.get("scales")}
 
 
 def shrink(case, still):
@@ -891,7 +977,48 @@ def translate():
     body.append("end Mouette.Generated.C08\n")
     if all(s["ok"] for s in sites):
         T.write_generated("C08Idx", "".join(body))
-    return sites
+    # assembly loops read imperatively (vlib/gen/c07_translate.py) -> Generated/C08Src.lean, bridged in Props/C08Source.lean
+    from ..gen import c07_translate as CT
+    text, bsites, info = CT.translate_c08()
+    if all(s["ok"] for s in bsites):
+        T.write_generated("C08Src", text)
+    return sites + bsites
+
+
+_OOS = "out-of-scope: "
+_LAP = "mouette/operators/laplacian_op.py::"
+_CONN = "mouette/processing/connection.py::"
+SOURCE_MAP = {k: "translated" for k in BRIDGES}
+SOURCE_MAP.update({
+    _LAP + "laplacian": "modelled",              # the 4 writes per edge, the loop table and (cotan_edge_diagonal) the opposite index are translated tables with bridges; the assembly loop is hand-modelled
+    _LAP + "cotan_edge_diagonal": "modelled",
+    _LAP + "graph_laplacian": "modelled", _LAP + "graph_laplacian.add": "modelled",
+    _LAP + "laplacian_triangles": "modelled", _LAP + "laplacian_edges": "modelled",
+    _LAP + "volume_laplacian": "modelled", _LAP + "laplacian_tetrahedra": "modelled",
+    "mouette/operators/gradient_op.py::gradient": "modelled",
+    "mouette/operators/mass.py::area_weight_matrix_faces": "modelled",
+    "mouette/operators/mass.py::area_weight_matrix_edges": "modelled",
+    "mouette/operators/mass.py::volume_weight_matrix_cells": "modelled",
+    "mouette/operators/adjacency.py::adjacency_matrix": "modelled",
+    "mouette/operators/adjacency.py::vertex_to_edge_operator": "modelled",
+    "mouette/operators/adjacency.py::vertex_to_face_operator": "modelled",
+    _CONN + "SurfaceConnection.__init__": "oracle-only", _CONN + "SurfaceConnection._initialize": _OOS + "abstract method (body is `pass`)",
+    _CONN + "SurfaceConnection.transport": "oracle-only", _CONN + "SurfaceConnection.base": "oracle-only",
+    _CONN + "SurfaceConnection.bX": "oracle-only", _CONN + "SurfaceConnection.bY": "oracle-only",
+    _CONN + "SurfaceConnection.project": "modelled",                    # face coordinates of the gradient rows (Ops.faceBasis / gradFace)
+    _CONN + "SurfaceConnectionFaces.__init__": "oracle-only",
+    _CONN + "SurfaceConnectionFaces._initialize": "modelled",            # base rotation towards the first border edge + face basis (Ops.baseRotation, faceBasis)
+    _CONN + "SurfaceConnectionVertices.__init__": "oracle-only",
+    _CONN + "SurfaceConnectionVertices._initialize": "oracle-only",      # connection Laplacian: Hermitian + moduli clauses on the implementation's matrices
+    _CONN + "FlatConnectionVertices.__init__": _OOS + "flat (2-D) connections are not used by the operators of the statement",
+    _CONN + "FlatConnectionVertices._initialize": _OOS + "as above", _CONN + "FlatConnectionVertices.transport": _OOS + "as above",
+    _CONN + "FlatConnectionVertices.base": _OOS + "as above", _CONN + "FlatConnectionVertices.project": _OOS + "as above",
+    _CONN + "FlatConnectionFaces.__init__": _OOS + "as above", _CONN + "FlatConnectionFaces._initialize": _OOS + "as above",
+    _CONN + "FlatConnectionFaces.transport": _OOS + "as above", _CONN + "FlatConnectionFaces.base": _OOS + "as above",
+    _CONN + "FlatConnectionFaces.project": _OOS + "as above",
+    _CONN + "SurfaceConnectionEdges.__init__": _OOS + "edge connections are used by laplacian_edges with a connection, which the statement does not list",
+    _CONN + "SurfaceConnectionEdges._initialize": _OOS + "as above",
+})
 
 
 MANIFEST = {
